@@ -115,16 +115,85 @@ def dedupNames : List Str → List Str
 def inModel (ps : List Archive) : Bool :=
   ps.all fun a => ps.all fun b => !sameClassDifferent a b
 
+/-! ### `sorted()` as CPython 3.12 runs it on fewer than 64 elements: `count_run`, then binary insertion
+
+The order of the comparisons is that of `Objects/listobject.c`, so the model answers what the implementation answers
+whatever `<` is — also when tuple `<` is not a strict weak order (order-equal versions spelled differently). -/
+
+/-- the rest of an ascending run after `prev`: each next element is not `<` the one before it -/
+def ascRun : Archive → List Archive → Option (List Archive × List Archive)
+  | _, [] => some ([], [])
+  | prev, x :: xs =>
+    match archiveLt x prev with
+    | none => none
+    | some true => some ([], x :: xs)
+    | some false => (ascRun x xs).map fun r => (x :: r.1, r.2)
+
+/-- the rest of a strictly descending run after `prev`: each next element is `<` the one before it -/
+def descRun : Archive → List Archive → Option (List Archive × List Archive)
+  | _, [] => some ([], [])
+  | prev, x :: xs =>
+    match archiveLt x prev with
+    | none => none
+    | some false => some ([], x :: xs)
+    | some true => (descRun x xs).map fun r => (x :: r.1, r.2)
+
+/-- `count_run` followed by `reverse_slice` for a descending run: `(the first run in ascending order, the rest)` -/
+def countRun : List Archive → Option (List Archive × List Archive)
+  | [] => some ([], [])
+  | [a] => some ([a], [])
+  | a :: b :: rest =>
+    match archiveLt b a with
+    | none => none
+    | some true => (descRun b rest).map fun r => ((a :: b :: r.1).reverse, r.2)
+    | some false => (ascRun b rest).map fun r => (a :: b :: r.1, r.2)
+
+/-- the binary search of `binarysort`: the position of `pivot` in the sorted prefix `pre`, looking in `[l, r)` -/
+def bsearch (pivot : Archive) (pre : List Archive) : Nat → Nat → Nat → Option Nat
+  | 0, l, _ => some l
+  | fuel + 1, l, r =>
+    if l < r then
+      let p := l + (r - l) / 2
+      match pre[p]? with
+      | none => some l
+      | some e =>
+        match archiveLt pivot e with
+        | none => none
+        | some true => bsearch pivot pre fuel l p
+        | some false => bsearch pivot pre fuel (p + 1) r
+    else some l
+
+def binInsert (pre : List Archive) (pivot : Archive) : Option (List Archive) :=
+  (bsearch pivot pre (pre.length + 1) 0 pre.length).map fun l => pre.take l ++ pivot :: pre.drop l
+
+/-- `list.sort` on fewer than 64 elements; `none` = a comparison raised `TypeError` -/
+def binSort (l : List Archive) : Option (List Archive) :=
+  match countRun l with
+  | none => none
+  | some (run, rest) => rest.foldl (fun acc x => acc.bind (binInsert · x)) (some run)
+
+/-- `sorted(packages)`: exact below 64 elements; from 64 on (merges of runs) only for lists on which tuple `<` is a
+strict weak order, where every stable sort gives the same list -/
+def sortPy (ps : List Archive) : Except PyExc (List Archive) :=
+  if ps.length < 64 then
+    match binSort ps with
+    | some s => .ok s
+    | none => .error .typeError
+  else if !inModel ps then .error .outOfModel
+  else
+    match sortA ps with
+    | some s => .ok s
+    | none => .error .typeError
+
 /-- `find_latest_version(packages)` on file names; `none` list = Python returns `None` -/
 def findLatestVersion (fns : List Str) : Except PyExc (Option Archive) :=
   if fns.isEmpty then .ok none else
   match fns.mapM debFromFilename with
   | .error e => .error e
   | .ok ps =>
-    if !inModel ps then .error .outOfModel else
-    match sortA ps with
-    | none => .error .typeError
-    | some sorted =>
+    match sortPy ps with
+    | .error e => .error e
+    | .ok sorted =>
       if (dedupNames (sorted.map (·.name))).length > 1 then .error .valueError
       else .ok sorted.getLast?
 
@@ -142,11 +211,11 @@ def findLatestVersions (fns : List Str) : Except PyExc (Option (List (Str × Arc
   match fns.mapM debFromFilename with
   | .error e => .error e
   | .ok ps =>
-    if !inModel ps then .error .outOfModel else
-    match sortA ps with
-    | none => .error .typeError
-    | some sorted =>
-      -- each group is sorted again (a no-op on a sorted run) and its last element taken
+    match sortPy ps with
+    | .error e => .error e
+    | .ok sorted =>
+      -- each group is sorted again (a no-op on a run of a sorted list: `count_run` takes the whole group for one
+      -- ascending run) and its last element taken
       .ok (some ((groupRuns sorted).filterMap fun (n, g) => g.getLast?.map fun a => (n, a)))
 
 end Model.Package
